@@ -50,18 +50,6 @@ def effReloc : String → Option Eff
 def vecTail (l : List String) : List Eff :=
   ((l.dropWhile (· != "truncateWrite")).drop 1).filterMap (fun s => if s == "updateStoredLen" then some Eff.publish else none)
 
-/-- the two writer programs of the raw model ARE what the extractor read off `Region::write_with` (fits path,
-relocation path) followed by what raw `write()` does after `truncate_write`; a reader loads the length before it
-creates its rawdb Reader, and `Reader::new` takes start and length under one metadata guard -/
-theorem C09_programs :
-    Gen.wwFitsOrder.filterMap effInPlace ++ vecTail Gen.rawVecAppendOrder = progInPlace ∧
-    Gen.wwRelocateOrder.filterMap effReloc ++ vecTail Gen.rawVecAppendOrder = progReloc ∧
-    Gen.rawVecAppendOrder.head? = some "truncateWrite" ∧
-    Gen.roRawOneOrder = ["loadLen", "createReader"] ∧ Gen.roRawIntoOrder = ["loadLen", "createReader"] ∧
-    Gen.vecReaderOrder = ["lenParam", "createReader"] ∧
-    Gen.readerNewOrder = ["meta", "start", "len", "dropMeta", "mmap"] := by
-  decide
-
 /-- what must hold at each point of the running write -/
 def PhaseInv (s : Sys) : Prop :=
   (s.prog = [] ∧ s.pub = s.rlen ∧ s.seq.length = s.pub ∧ s.reloc = false) ∨
@@ -309,13 +297,6 @@ namespace AnyDB.PublishC
 def effComp : String → Option Eff
   | "truncateWrite" => some .dataWrite | "pagesWrite" => some .lockIndex | "pagesPush" => some .indexUpdate
   | "updateStoredLen" => some .publish | "pagesFlush" => some .unlockIndex | _ => none
-
-/-- both paths of compressed `write()` are: data, index lock, index update, publication, unlock — and a read-only
-clone loads the length before it takes the index read lock -/
-theorem C09_comp_programs :
-    Gen.compWriteFastOrder.filterMap effComp = prog ∧ Gen.compWriteSlowOrder.filterMap effComp = prog ∧
-    Gen.roCompIntoOrder = ["loadLen", "createReader", "pagesRead"] := by
-  decide
 
 /-! ### lemmas -/
 
